@@ -28,11 +28,7 @@ broadcast use {num_bigint::of_int_bi, num_bigint::bi_of_int};
 //@ extract fn bigint_from_bytes from src/classic/clvm/casts.rs
 //@ canary drop_remain_offset @<i * 4 + bytes4_remain>@ => @<i * 4>@
 //@ replace R4 @<option.map(|cvt| cvt.signed).unwrap_or_else(|| false)>@ => @<(match option { Some(cvt) => cvt.signed, None => false })>@
-//@ sig r
-    requires bv(*b).len() * 8 <= usize::MAX
-    ensures
-        (option is None || !option->Some_0.signed) ==> bi(r) == be_unsigned(bv(*b)),
-        (option is Some && option->Some_0.signed) ==> bi(r) == be_signed(bv(*b)),
+//@ sigfile r contracts/bigint_from_bytes.sig
 //@ after stmt @<let mut order>@
     let ghost len = dv@.len() as int;
     proof {
@@ -88,14 +84,11 @@ broadcast use {num_bigint::of_int_bi, num_bigint::bi_of_int};
 
 //@ extract fn bigint_to_bytes_unsigned from src/classic/clvm/casts.rs
 //@ replace R9 @<assert!(*v > bi_zero());>@ => @<verif_assert(*v > bi_zero());>@
-//@ sig r
-    requires bi(*v) >= 0
-    ensures be_unsigned(bv(r)) == bi(*v), is_min_unsigned(bv(r))
+//@ sigfile r contracts/bigint_to_bytes_unsigned.sig
 //@ end
 
 //@ extract fn bigint_to_bytes_clvm from src/classic/clvm/casts.rs
-//@ sig r
-    ensures be_signed(bv(r)) == bi(*v), is_min_signed(bv(r))
+//@ sigfile r contracts/bigint_to_bytes_clvm.sig
 //@ loop 0
         invariant
             be_signed(slice@) == bi(*v),
